@@ -124,8 +124,21 @@ def const_case(rec, seedt, tier):
             "rec": rkind, "tier": tier}
     rec.case(desc, nontrivial=False)
     xin = x.copy()
+    # the same request in the forms a caller may use: list / float32-exact data, shift as python
+    # float, int, 0-d array or numpy scalar
+    form = str(rng.choice(["array", "array", "list", "shift-0d", "shift-npfloat", "shift-int"]))
+    desc["form"] = form
+    xarg, sarg = x, s
+    if form == "list":
+        xarg = x.tolist()
+    elif form == "shift-0d":
+        sarg = np.array(s)
+    elif form == "shift-npfloat":
+        sarg = np.float64(s)
+    elif form == "shift-int" and s == math.floor(s):
+        sarg = int(s)
     try:
-        out = dsp.timeshift(x, s, order)
+        out = dsp.timeshift(xarg, sarg, order)
     except Exception as e:
         rec.violation("timeshift-raises", f"timeshift(N={N}, s={s}, order={order}) raised "
                                           f"{type(e).__name__}: {e}")
